@@ -8,7 +8,7 @@
    hands the lexemes to the serializer's `Out` (spacing; owned by C05), re-parsing runs the shared
    tokenizer model and the value grammar (prodparser; unmodelled).  `Out` and the grammar are Section
    variables of RoundtripFacts.v with named hypotheses.                                              *)
-From CssV Require Import Base Regex Tokenizer Quote Gen.Quote QuoteFacts QuoteStrFacts.
+From CssV Require Import Base Regex Tokenizer Quote Gen.Quote QuoteFacts QuoteStrFacts Upto Skeleton SkeletonFacts.
 
 Inductive item :=
 | IStr (v : str)               (* a STRING token's value *)
@@ -46,3 +46,30 @@ Section WithSeparators.
                                      ty t = ty0 /\ val t = x
     end.
 End WithSeparators.
+
+(* ------------------------------------------------------------------ sheet layout: rule lists *)
+(* What the serializer writes for a rule list (do_CSSStyleSheet, the body of do_CSSMediaRule) is
+   lineSeparator.join(rule texts).  At token level: the token runs of the rules, joined by the tokens of the separator
+   (none for '', one S token for a blank-only or newline separator, plus the indentation inside @media), possibly
+   with skipped tokens in front and behind (indentation, the EOF token of full-sheet mode).                      *)
+Inductive piece :=
+| PStmt (k : kind) (run : list tok)     (* a rule / statement: its handler kind and its token run *)
+| PComment (t : tok).                   (* a comment between the rules *)
+
+Definition ptoks (p : piece) : list tok := match p with PStmt _ run => run | PComment t => [t] end.
+Definition pitem (p : piece) : Skeleton.item :=
+  match p with PStmt k run => Skeleton.IStmt k run | PComment t => Skeleton.IComment t end.
+
+(* IsStatement: the run is one complete statement for its handler (C04: JunkStmt = first token selects handler k and
+   the run is exactly what k's _tokensupto2 call pulls); a comment token is classified as a comment *)
+Definition wf_piece (cls : tok -> tclass) (p : piece) : Prop :=
+  match p with PStmt k run => JunkStmt cls k run | PComment t => cls t = CComment end.
+
+Fixpoint join_toks (sep : list tok) (ps : list (list tok)) : list tok :=      (* sep.join(ps) *)
+  match ps with
+  | [] => []
+  | [p] => p
+  | p :: r => p ++ sep ++ join_toks sep r
+  end.
+
+Definition skips (cls : tok -> tclass) (l : list tok) : Prop := Forall (fun t => cls t = CSkip) l.
